@@ -364,6 +364,11 @@ func FIte(c bool, a, b float64) float64 {
 // -1 if there is none. Engine only: natively it returns -1 and harnesses guard its use with Engine().
 func PendingTimer() time.Duration { return -1 }
 
+// StrictClock makes every later reading of the clock strictly greater than the previous one (engine only;
+// natively the real clock is used): harnesses whose oracle would be ambiguous for two events bearing the
+// same timestamp assume ties away and say so.
+func StrictClock() {}
+
 // PendingTimers is the number of armed timers some goroutine is waiting on (engine only; natively 0).
 func PendingTimers() int { return 0 }
 
